@@ -13,7 +13,7 @@ for id in $ids; do
   if ! git apply --check "$d/patch.diff" 2>/dev/null; then echo "{\"id\":\"$id\",\"applies\":false}" > "$d/verify.json"; echo "$id: patch does not apply"; continue; fi
   cp "$d/demo_$id.py" "$WT/" 
   base=$(echo "$id" | cut -c1-3)
-  sed -i "s#/tmp/seed11-$base#$WT#g; s#/tmp/seed10-$base#$WT#g; s#/tmp/seed9-$base#$WT#g; s#/tmp/seed8-$base#$WT#g; s#/tmp/seed7-$base#$WT#g; s#/tmp/seed6-$base#$WT#g; s#/tmp/seed5-$base#$WT#g; s#/tmp/seed4-$base#$WT#g; s#/tmp/seed3-$base#$WT#g; s#/tmp/seed2-$base#$WT#g; s#/tmp/seed-$base#$WT#g" "$WT/demo_$id.py"
+  sed -i "s#/tmp/seed12-$base#$WT#g; s#/tmp/seed11-$base#$WT#g; s#/tmp/seed10-$base#$WT#g; s#/tmp/seed9-$base#$WT#g; s#/tmp/seed8-$base#$WT#g; s#/tmp/seed7-$base#$WT#g; s#/tmp/seed6-$base#$WT#g; s#/tmp/seed5-$base#$WT#g; s#/tmp/seed4-$base#$WT#g; s#/tmp/seed3-$base#$WT#g; s#/tmp/seed2-$base#$WT#g; s#/tmp/seed-$base#$WT#g" "$WT/demo_$id.py"
   PYTHONPATH="$WT" timeout 600 /venv/bin/python "demo_$id.py" >/dev/null 2>&1; clean=$?
   git apply "$d/patch.diff"
   PYTHONPATH="$WT" timeout 600 /venv/bin/python "demo_$id.py" >/dev/null 2>&1; broken=$?
